@@ -6,10 +6,10 @@ class C04(ProgProp):
     id = 'C04'
     want_mc = True
     wrapper_stream = (150, 4000)
-    theorems = ['C04.refines_partial', 'C04.sound', 'C04.claim_not_granted_keeps_selection', 'C04.foreign_release_witness', 'C04.deliver_to_selected_only', 'C04.names_from_configuration', 'C04.cfg_checked', 'C04.refines_specified', 'C04.rules_agree', 'C04.frame_invoke_drain', 'C04.client_claim', 'C04.client_release', 'C04.deliver_to_selected', 'C04.deliver_to_nobody', 'C04.runOp_step', 'C04.history_refines', 'C04.history_delivery', 'C04.history_holder', 'C04.mc_wired', 'C04.mc_example', 'C04.createHelpers_inits', 'C04.registered', 'C04.register_all', 'C04.generated_mc_in_slots', 'C04.build_initPort', 'C04.build_mc_wired', 'C04.build_history_holder', 'SemReact.invokeR_nil', 'SemReact.drainR_nil']
+    theorems = ['C04.refines_partial', 'C04.sound', 'C04.claim_not_granted_keeps_selection', 'C04.foreign_release_witness', 'C04.deliver_to_selected_only', 'C04.names_from_configuration', 'C04.cfg_checked', 'C04.refines_specified', 'C04.rules_agree', 'C04.frame_invoke_drain', 'C04.client_claim', 'C04.client_release', 'C04.deliver_to_selected', 'C04.deliver_to_nobody', 'C04.runOp_step', 'C04.history_refines', 'C04.history_delivery', 'C04.history_holder', 'C04.mc_wired', 'C04.mc_example', 'C04.createHelpers_inits', 'C04.registered', 'C04.register_all', 'C04.generated_mc_in_slots', 'C04.build_initPort', 'C04.build_mc_wired', 'C04.build_history_holder', 'SemReact.invokeR_nil', 'SemReact.drainR_nil', 'C04.release_reaction_reaches_holder']
     partial = [('C04.refines', 'full refinement fails while Deselect(id) clears a selection held by another client '
                 '(known finding D-9); proved under NoForeignRelease, negation proved on a concrete history')]
-    proof_modules = ['DznProofs.C04', 'DznProofs.C04Spec', 'DznProofs.C04Gen', 'DznProofs.C04Example', 'DznProofs.C04Build', 'DznProofs.SemReact']
+    proof_modules = ['DznProofs.C04', 'DznProofs.C04Spec', 'DznProofs.C04Gen', 'DznProofs.C04Example', 'DznProofs.C04Build', 'DznProofs.SemReact', 'DznProofs.C04React']
     level_rule = ('compiled multi-client programs with 1-3 registered clients; histories of ~40 claim/release/other '
                   'in-events by random clients with scripted claim replies over all enum fields, component out-events '
                   'in between; monitor: every out-event is delivered to exactly the holder of the abstract '
